@@ -10,6 +10,7 @@ import (
 	"github.com/vulpemventures/go-elements/network"
 	"github.com/vulpemventures/go-elements/transaction"
 	"sync"
+	"sync/atomic"
 
 	"context"
 	goelectrum "github.com/checksum0/go-electrum/electrum"
@@ -162,6 +163,29 @@ func cmdProbe(name string) {
 		fmt.Println("txhex", len(hx), err)
 		ok, err := lq.ValidateTx(params, hx)
 		fmt.Println("validate explicit output:", ok, err)
+	case "c09-toctou":
+		// two swap-in requests with the SAME id: the second passes the "id known?" test, then waits in a Lightning
+		// RPC; meanwhile the first is admitted, cancelled by the peer and finished; then the second goes on
+		id := strings.Repeat("ab", 32)
+		a, b := newCtx(w), newCtx(w)
+		reached, gate := make(chan bool, 1), make(chan bool)
+		var first int32
+		w.setHook("canspend", func() {
+			if atomic.CompareAndSwapInt32(&first, 0, 1) {
+				reached <- true
+				<-gate
+			}
+		})
+		done := make(chan string, 1)
+		go func() { done <- b.Step("new inReceiver btc scid=777x1x0 amt=2000000 id=" + id) }()
+		<-reached
+		fmt.Println("first request:", a.Step("new inReceiver btc id="+id), a.state())
+		fmt.Println("peer cancels it:", a.Step("cancel"), a.state())
+		before := w.swapRecordJSON(id)
+		close(gate)
+		fmt.Println("second request (same id, other channel, other amount) continues:", <-done, b.state())
+		after := w.swapRecordJSON(id)
+		fmt.Println("record of the finished swap replaced:", before != after)
 	case "c09-id":
 		a := newCtx(w)
 		fmt.Println("incoming swap-out request:", a.Step("new outReceiver btc"), a.state())
